@@ -267,6 +267,19 @@ NOINSTR ssize_t in_read(void *c, char *buf, size_t n) {
 }
 NOINSTR int in_close(void *c) { (void)c; ev(0x63, 0); return 0; }
 
+// regular files are seekable; a pipe on stdin is not (no seek callback)
+NOINSTR int in_seek(void *c, off64_t *pos, int whence) {
+	InStream *in = (InStream *)c;
+	const std::string &data = S.plan->files[in->file].data;
+	off64_t base = whence == SEEK_SET ? 0 : whence == SEEK_CUR ? (off64_t)in->pos : (off64_t)data.size();
+	off64_t np = base + *pos;
+	if (np < 0) { errno = EINVAL; return -1; }
+	in->pos = (size_t)np;
+	*pos = np;
+	ev(0x73, (uint64_t)np);
+	return 0;
+}
+
 NOINSTR ssize_t out_write(void *c, const char *buf, size_t n) {
 	OutStream *o = (OutStream *)c;
 	long k = S.res.nwrite++;
@@ -310,8 +323,8 @@ NOINSTR FILE *make_out(int which) {
 	return f;
 }
 
-NOINSTR FILE *make_in(int file) {
-	cookie_io_functions_t io = {in_read, nullptr, nullptr, in_close};
+NOINSTR FILE *make_in(int file, bool seekable) {
+	cookie_io_functions_t io = {in_read, nullptr, seekable ? in_seek : nullptr, in_close};
 	InStream *in = new InStream{file, 0};
 	S.ins.push_back(in);
 	return fopencookie(in, "r", io);
@@ -480,7 +493,7 @@ NOINSTR FILE *__wrap_fopen(const char *path, const char *mode) {
 	for (size_t i = 0; i < S.plan->files.size(); i++)
 		if (S.plan->files[i].name == path) {
 			S.in_sut = false;
-			FILE *f = make_in((int)i);
+			FILE *f = make_in((int)i, true);
 			S.in_sut = true;
 			return f;
 		}
@@ -659,7 +672,7 @@ NOINSTR static void child_run(const Plan &p, int resfd, bool want_sink, bool wan
 		setvbuf(e, nullptr, _IONBF, 0);
 		stderr = e;
 	}
-	if (use_stdin) stdin = make_in(0);
+	if (use_stdin) stdin = make_in(0, !p.stdin_pipe);
 	else {
 		// nothing to read on the real stdin
 		cookie_io_functions_t io = {in_read, nullptr, nullptr, nullptr};
